@@ -131,6 +131,7 @@ func SearchFrom(prop, tier string, seed uint64, worker, workers int, budget time
 		rs := RunSeed(seed, prop, idx)
 		tape := rt.NewTape(rs)
 		res := w.Run(tape, false)
+		core.FoldEnvFaults(res)
 		s.Runs++
 		if res.Discard {
 			s.Discards++
